@@ -47,7 +47,10 @@ const (
 	// a violation on a value that was handed to a sender the server identified through its circuit-id
 	// only, or whose holder changed circuit-id (the circuit-id secondary index is then stale)
 	sigV4Circuit = "C02/v4/double-handout/after-circuit-id-rebinding"
-	sigV4Panic   = "C02/v4/handler-panic"
+	// a violation on a value after it was ACKed to the replacement CPE of the line that holds it
+	// (the old MAC's lease entry and pool allocation stay behind)
+	sigV4Swap  = "C02/v4/double-handout/after-cpe-swap"
+	sigV4Panic = "C02/v4/handler-panic"
 )
 
 // the signatures caused by "a REQUEST from a client without a lease is only checked with pool.Contains"
@@ -58,7 +61,7 @@ var v4UnsolicitedFamily = []string{
 	sigV4Unrecorded,
 }
 
-var v4CircuitFamily = []string{sigV4TableDup + "same-circuit", sigV4Circuit}
+var v4CircuitFamily = []string{sigV4TableDup + "same-circuit", sigV4Circuit, sigV4Swap}
 
 func anyListed(sigs ...string) bool {
 	for _, s := range sigs {
@@ -348,6 +351,7 @@ type v4id struct {
 	client int    // generator client index, 50+i for the replacement CPE of line i, 100+n for drain clients
 	line   int    // subscriber line (client index; 100+n for drain clients)
 	ambig  bool   // option 82 does not belong to the sender's own line
+	relay  bool   // giaddr set
 	other  int    // line whose circuit-id the message borrows (-1 if none)
 }
 
@@ -362,6 +366,8 @@ type v4val struct {
 	cleaned bool   // a cleanup tick ran after the binding expired
 	how     string // for declined: after-ACK | after-OFFER-only
 	reoffer bool   // for offered: the value is the same client's expired (not yet cleaned up) binding, offered again
+	cid     string // circuit-id the server has on record for the binding (last one an ACKed message carried)
+	tickAt  time.Time // last cleanup tick that ran while this (expired) binding / re-offer was the value's state
 }
 
 func (v *v4val) same(s v4id) bool { return v.line == s.line }
@@ -388,6 +394,7 @@ type v4mon struct {
 	declAny  map[string]bool     // values named in any DECLINE (no availability demand on them)
 	unrec    map[string]bool     // values that were ACKed to a client the server had not offered them to
 	ambig    map[string]bool     // values touched by a message without a well-defined client (sticky)
+	swapped  map[string]bool     // values ACKed to the other device of the line that held them (attribution only)
 	touched  map[string]map[int]bool
 	classes  map[string]bool
 	nt       bool
@@ -397,7 +404,7 @@ type v4mon struct {
 }
 
 func newV4Mon(g *v4geom) *v4mon {
-	return &v4mon{g: g, vals: map[string]*v4val{}, offers: map[string]*v4offer{}, declBy: map[string]bool{}, declAny: map[string]bool{}, unrec: map[string]bool{}, ambig: map[string]bool{},
+	return &v4mon{g: g, vals: map[string]*v4val{}, offers: map[string]*v4offer{}, declBy: map[string]bool{}, declAny: map[string]bool{}, unrec: map[string]bool{}, ambig: map[string]bool{}, swapped: map[string]bool{},
 		touched: map[string]map[int]bool{}, classes: map[string]bool{}, obtained: map[string]bool{}}
 }
 
@@ -406,6 +413,9 @@ func (m *v4mon) fail(sig, f string, a ...any) {
 }
 
 func (m *v4mon) touch(val string, s v4id) {
+	if m.draining {
+		return // the probe's own fresh clients do not make a case non-trivial
+	}
 	t := m.touched[val]
 	if t == nil {
 		t = map[int]bool{}
@@ -421,7 +431,7 @@ func (m *v4mon) touch(val string, s v4id) {
 // reuseClass records hand-outs of a value another client gave up.
 func (m *v4mon) reuseClass(val string, s v4id, now time.Time) {
 	st := m.vals[val]
-	if st == nil || st.same(s) {
+	if st == nil || st.same(s) || m.draining {
 		return
 	}
 	switch {
@@ -506,13 +516,13 @@ func (m *v4mon) onOffer(s v4id, ip net.IP, lease time.Duration, now time.Time) {
 	if !m.usableCheck(ip, "OFFER") {
 		return
 	}
-	if s.ambig {
-		m.markAmbiguous(s, val)
-		delete(m.offers, s.mac)
-		return
-	}
-	if m.ambig[val] {
+	if s.ambig || m.ambig[val] {
+		if s.ambig {
+			m.markAmbiguous(s, val)
+		}
 		m.cancelOffer(s.mac, "")
+		// remembered only so that the generator can ask for it; no claim is attached to an ambiguous value
+		m.offers[s.mac] = &v4offer{val: val, at: now, expiry: now.Add(lease), cid: s.cid, line: s.line}
 		return
 	}
 	if st := m.vals[val]; st != nil && st.kind == "declined" {
@@ -568,6 +578,8 @@ func (m *v4mon) onAck(s v4id, ip net.IP, lease time.Duration, now time.Time) {
 		sig := sigV4AckForeign + shape
 		if offered && m.unrec[val] {
 			sig = sigV4Unrecorded
+		} else if m.swapped[val] {
+			sig = sigV4Swap
 		}
 		m.fail(sig, "ACK to %s names %s which is bound to %s until %s (now %s)", s.label, val, st.label, st.expiry.Format("15:04:05"), now.Format("15:04:05"))
 		return
@@ -584,6 +596,9 @@ func (m *v4mon) onAck(s v4id, ip net.IP, lease time.Duration, now time.Time) {
 				sig = sigV4Unrecorded
 			}
 		}
+		if m.swapped[val] && sig != sigV4Unrecorded {
+			sig = sigV4Swap
+		}
 		m.fail(sig, "ACK to %s names %s which is under an outstanding OFFER to %s (offered %s, now %s)", s.label, val, st.label, st.at.Format("15:04:05"), now.Format("15:04:05"))
 		return
 	}
@@ -597,12 +612,28 @@ func (m *v4mon) onAck(s v4id, ip net.IP, lease time.Duration, now time.Time) {
 		}
 	}
 	m.cancelOffer(s.mac, val)
-	nv := &v4val{kind: "bound", line: s.line, lastMAC: s.mac, label: s.label, at: now, expiry: now.Add(lease), unsol: !offered}
-	if st != nil && st.kind == "bound" && st.lastMAC == s.mac && !st.cleaned {
-		nv.unsol = st.unsol // a renewal by the holder keeps the origin of the binding
+	nv := &v4val{kind: "bound", line: s.line, lastMAC: s.mac, label: s.label, at: now, expiry: now.Add(lease), unsol: !offered, cid: s.cid}
+	if st != nil && st.kind == "bound" && st.same(s) && !st.cleaned && nv.cid == "" {
+		nv.cid = st.cid // the server keeps the circuit-id of the lease when a renewal carries none
 	}
-	if st != nil && st.kind == "bound" && st.same(s) && st.lastMAC != s.mac && now.Before(st.expiry) {
+	// Attribution of later violations to the listed "unrecorded binding" defect: was this ACK given
+	// without the pool recording the value for this device?
+	if o := m.offers[s.mac]; offered && o != nil && st != nil && !st.tickAt.IsZero() && !o.at.After(st.tickAt) {
+		nv.unsol = true // the OFFER re-used an expired lease's address and a cleanup tick has freed it since
+	}
+	if st != nil && st.kind == "bound" && !st.cleaned {
+		switch {
+		case st.lastMAC == s.mac:
+			nv.unsol = st.unsol // a renewal by the holder keeps the origin of the binding
+		case st.same(s) && s.relay && s.cid != "" && st.cid == s.cid:
+			nv.unsol = st.unsol // replacement CPE found through the circuit-id index: the renewal path
+		}
+	}
+	if st != nil && st.kind == "bound" && st.same(s) && st.lastMAC != s.mac {
 		m.classes["cpe-swap-acked"] = true
+		if vstat.IsListed(sigV4Swap) {
+			m.swapped[val] = true // attribution only
+		}
 	}
 	if nv.unsol && vstat.IsListed(sigV4Unrecorded) {
 		m.unrec[val] = true // attribution only: re-labels later violations on val to the listed signature
@@ -628,6 +659,8 @@ func (m *v4mon) onRelease(s v4id, now time.Time) {
 			if now.Before(st.expiry) {
 				st.kind = "released"
 				st.at = now
+			} else {
+				st.cleaned = true
 			}
 		} else if st.same(s) {
 			st.kind = "forgotten" // released by the line's other device: nothing is asserted about it any more
@@ -685,6 +718,10 @@ func (m *v4mon) onCleanup(now time.Time) {
 	for _, st := range m.vals {
 		if st.kind == "bound" && now.After(st.expiry) {
 			st.cleaned = true
+			st.tickAt = now
+		}
+		if st.kind == "offered" && st.reoffer {
+			st.tickAt = now
 		}
 	}
 }
@@ -714,6 +751,8 @@ func (m *v4mon) checkTable(ls []dhcp.VerifLease, now time.Time) {
 			sig = sigV4Unrecorded
 		} else if m.ambig[ip] {
 			sig = sigV4Circuit
+		} else if m.swapped[ip] && kind != "same-circuit" {
+			sig = sigV4Swap
 		}
 		m.fail(sig, "lease table holds %d unexpired entries for %s: %s (circuit %q, until %s) and %s (circuit %q, until %s)", len(es), ip,
 			es[0].Key, es[0].Lease.CircuitID, es[0].Lease.ExpiresAt.Format("15:04:05"), es[1].Key, es[1].Lease.CircuitID, es[1].Lease.ExpiresAt.Format("15:04:05"))
@@ -734,6 +773,12 @@ type v4run struct {
 	xid     uint32
 	allowKF bool
 	msgs    int
+
+	preTarget net.IP // target of an ambiguous message, resolved before its values were taken out of the oracle
+
+	// attribution: the REQUEST being delivered meets the trigger condition of a listed defect
+	trigUnrecorded bool // new session at the server, address in the network, not allocated to this MAC in the pool
+	trigSwap       bool // matched through the circuit-id index to a lease held under another MAC
 }
 
 func newV4Run(g *v4geom, allowKF bool) (*v4run, error) {
@@ -829,6 +874,7 @@ func (x *v4run) ident(o v4op) (v4id, []byte, bool) {
 		}
 		id.ambig = own == nil || !bytes.Equal(own, cid)
 	}
+	id.relay = relayed
 	return id, cid, relayed
 }
 
@@ -887,6 +933,9 @@ func (x *v4run) foreignValues(s v4id, now time.Time) []string {
 }
 
 func (x *v4run) resolve(o v4op, s v4id, now time.Time) net.IP {
+	if x.preTarget != nil {
+		return x.preTarget
+	}
 	random := func() net.IP {
 		n := 1 << (32 - x.g.cfg.Bits)
 		return ip4add(x.g.netIP, 1+o.Aux%(n-2))
@@ -908,6 +957,12 @@ func (x *v4run) resolve(o v4op, s v4id, now time.Time) net.IP {
 		// a replacement CPE asks for the address its line holds
 		if v := x.mon.boundToLine(s.line, now); v != "" {
 			return net.ParseIP(v).To4()
+		}
+		// … or the address the line held until it ran out (INIT-REBOOT with a remembered address)
+		for _, k := range sortedKeys(x.mon.vals) {
+			if st := x.mon.vals[k]; st.kind == "bound" && st.line == s.line && !x.mon.ambig[k] {
+				return net.ParseIP(k).To4()
+			}
 		}
 		if of := x.mon.offers[s.mac]; of != nil {
 			return net.ParseIP(of.val).To4()
@@ -1016,7 +1071,11 @@ func (x *v4run) step(o v4op) bool {
 	if o.Alt {
 		x.mon.classes["alt-mac"] = true
 	}
+	x.preTarget = nil
 	if s.ambig {
+		if o.Kind == "request" || o.Kind == "decline" {
+			x.preTarget = x.resolve(o, s, now)
+		}
 		x.mon.markAmbiguous(s)
 	}
 	if !x.allowKF && (o.Kind == "discover") && anyListed(sigV4AckForeignOffer+"after-OFFER/holder-reoffered-expired-lease") && x.hasExpiredLease(s) {
@@ -1064,9 +1123,13 @@ func (x *v4run) step(o v4op) bool {
 		}
 		tv := x.resolve(o, s, now)
 		val := tv.String()
+		// (implementation state, used for steering around listed defects and for attributing
+		// violations to them — never for deciding whether something is a violation)
+		newSess := x.serverSeesNewSession(s, relayed)
+		offeredMe := x.pool.VerifState().Allocated[s.mac] == val
+		x.trigUnrecorded = newSess && !offeredMe && x.g.network.Contains(tv) && vstat.IsListed(sigV4Unrecorded)
+		x.trigSwap = !newSess && x.isCpeSwap(s, relayed) && vstat.IsListed(sigV4Swap)
 		if !x.allowKF {
-			newSess := x.serverSeesNewSession(s, relayed)
-			offeredMe := x.pool.VerifState().Allocated[s.mac] == val // (implementation state: steering only)
 			if newSess && !offeredMe && x.g.network.Contains(tv) && anyListed(v4UnsolicitedFamily...) {
 				// the listed defect: such a REQUEST is ACKed without any ownership check.  Ask from outside instead.
 				tv = ip4add(x.g.bcast, 1+o.Aux)
@@ -1125,6 +1188,12 @@ func (x *v4run) step(o v4op) bool {
 				if expectSame && !r.yi.Equal(tv) {
 					x.mon.fail(sigV4Renew+"other-value", "%s renewed its unexpired binding %s and was ACKed %s", s.label, val, r.yi)
 					return false
+				}
+				if x.trigUnrecorded {
+					x.mon.unrec[r.yi.String()] = true
+				}
+				if x.trigSwap {
+					x.mon.swapped[r.yi.String()] = true
 				}
 				x.mon.onAck(s, r.yi, r.lease, now)
 				x.mon.classes["acked"] = true
@@ -1276,19 +1345,43 @@ func (x *v4run) drain() {
 	x.mon.onCleanup(now)
 	x.logf("-- drain probe at %s (after a cleanup tick)", now.Format("15:04:05"))
 	x.mon.draining = true
+	if !x.drainRound(0, now) {
+		return
+	}
+	x.demand(now, false)
+	if len(x.mon.viol) > 0 || x.g.cfg.Bits < 27 {
+		return
+	}
+	// second probe: after one more lease time and a cleanup tick nothing is bound or offered any more,
+	// so every value that was ever handed out (and not declined) must be obtainable again
+	time.Sleep(x.g.lease + 61*time.Second)
+	synctest.Wait()
+	now = time.Now()
+	x.srv.VerifCleanupExpired()
+	x.mon.onCleanup(now)
+	x.logf("-- second drain probe at %s (one lease time + 61 s later, after a cleanup tick)", now.Format("15:04:05"))
+	x.mon.obtained = map[string]bool{}
+	if !x.drainRound(1000, now) {
+		return
+	}
+	x.demand(now, true)
+}
+
+// drainRound lets fresh clients (numbered from base) take addresses until a DISCOVER stays unanswered.
+func (x *v4run) drainRound(base int, now time.Time) bool {
 	limit := len(x.g.usable) + 3
-	for i := 0; i < limit; i++ {
+	for i := base; i < base+limit; i++ {
 		mac := net.HardwareAddr{0x02, 0, 0, 0xff, byte(i >> 8), byte(i)}
 		s := v4id{mac: mac.String(), client: 100 + i, line: 100 + i, other: -1, label: fmt.Sprintf("f%d", i)}
 		p, err := x.packet(dhcpv4.MessageTypeDiscover, mac, nil, false)
 		if err != nil {
 			x.mon.fail("C02/harness/build", "%v", err)
-			return
+			return false
 		}
 		rs, pan := x.deliver(p)
 		if pan != nil {
 			x.mon.fail(sigV4Panic, "drain DISCOVER panicked: %v", pan)
-			return
+			return false
 		}
 		var offer net.IP
 		for _, r := range rs {
@@ -1299,21 +1392,21 @@ func (x *v4run) drain() {
 		}
 		if len(x.mon.viol) > 0 {
 			x.logf("%s DISCOVER -> %s", s.label, fmtReplies(rs))
-			return
+			return false
 		}
 		if offer == nil {
-			x.logf("%s DISCOVER -> %s: pool exhausted after %d fresh clients", s.label, fmtReplies(rs), i)
+			x.logf("%s DISCOVER -> %s: pool exhausted after %d fresh clients", s.label, fmtReplies(rs), i-base)
 			break
 		}
 		q, err := x.packet(dhcpv4.MessageTypeRequest, mac, nil, false, dhcpv4.WithOption(dhcpv4.OptRequestedIPAddress(offer)), dhcpv4.WithOption(dhcpv4.OptServerIdentifier(x.g.serverIP)))
 		if err != nil {
 			x.mon.fail("C02/harness/build", "%v", err)
-			return
+			return false
 		}
 		rs2, pan := x.deliver(q)
 		if pan != nil {
 			x.mon.fail(sigV4Panic, "drain REQUEST panicked: %v", pan)
-			return
+			return false
 		}
 		for _, r := range rs2 {
 			if r.typ == dhcpv4.MessageTypeAck && r.yi != nil && !r.yi.IsUnspecified() {
@@ -1322,16 +1415,20 @@ func (x *v4run) drain() {
 		}
 		if len(x.mon.viol) > 0 {
 			x.logf("%s DORA %s -> %s", s.label, offer, fmtReplies(rs2))
-			return
+			return false
 		}
 	}
 	// entries do not leave the table during the probe: one look at the end sees every duplicate
 	x.mon.checkTable(x.srv.VerifLeases(), now)
 	if len(x.mon.viol) > 0 {
-		return
+		return false
 	}
 	x.logf("drain obtained %d values", len(x.mon.obtained))
-	// which values had to be available?
+	return true
+}
+
+// demand: which values had to be obtained by the probe that just exhausted the pool?
+func (x *v4run) demand(now time.Time, second bool) {
 	for _, v := range x.g.usable {
 		if x.mon.obtained[v] || x.mon.declAny[v] || x.mon.ambig[v] {
 			continue
@@ -1361,12 +1458,17 @@ func (x *v4run) drain() {
 		if st != nil {
 			who, when = st.label, st.at.Format("15:04:05")
 		}
-		x.mon.fail(sigV4NotAvail+reason, "%s (%s; last held/offered by %s at %s) is not handed out to any of the fresh clients that exhausted the pool at %s; pool state %+v",
-			v, reason, who, when, now.Format("15:04:05"), x.pool.VerifState())
+		which := "the"
+		if second {
+			which = "the second set of"
+		}
+		x.mon.fail(sigV4NotAvail+reason, "%s (%s; last held/offered by %s at %s) is not handed out to any of %s fresh clients that exhausted the pool at %s; pool state %+v",
+			v, reason, who, when, which, now.Format("15:04:05"), x.pool.VerifState())
 	}
 }
 
 type v4result struct {
+	deadAt  int // index of the op at which the case was abandoned (-1: ran to the end)
 	viol    []violation
 	log     []string
 	classes []string
@@ -1391,9 +1493,11 @@ func execV4InBubble(cfg v4cfg, ops []v4op, allowKF bool) v4result {
 	}
 	x.logf("pool %s gateway %s reservedStart=%d reservedEnd=%d lease=%s clients=%d usable=%d", g.network, g.gateway, cfg.ResStart, cfg.ResEnd, g.lease, cfg.K, len(g.usable))
 	ok := true
-	for _, o := range ops {
+	deadAt := -1
+	for i, o := range ops {
 		if !x.step(o) {
 			ok = false
+			deadAt = i
 			break
 		}
 	}
@@ -1420,7 +1524,7 @@ func execV4InBubble(cfg v4cfg, ops []v4op, allowKF bool) v4result {
 	for i := range cls {
 		cls[i] = "v4:" + cls[i]
 	}
-	return v4result{viol: m.viol, log: x.log, classes: cls, nt: m.nt, msgs: x.msgs}
+	return v4result{deadAt: deadAt, viol: m.viol, log: x.log, classes: cls, nt: m.nt, msgs: x.msgs}
 }
 
 // ---------------------------------------------------------------------------
@@ -1489,17 +1593,21 @@ func v4Alphabet(k int) []v4op {
 	for c := 0; c < k; c++ {
 		a = append(a,
 			v4op{Kind: "discover", C: c, Tr: "direct"},
-			v4op{Kind: "request", C: c, Tr: "direct", Tgt: "offer", Shape: "selecting"},
-			v4op{Kind: "request", C: c, Tr: "direct", Tgt: "foreign", Shape: "initreboot"},
+			v4op{Kind: "request", C: c, Tr: "direct", Tgt: "offer", Shape: "selecting", inDora: true},
 			v4op{Kind: "release", C: c, Tr: "direct"},
 		)
 		if k == 2 {
-			a = append(a, v4op{Kind: "decline", C: c, Tr: "direct", Tgt: "mine"})
+			a = append(a,
+				v4op{Kind: "request", C: c, Tr: "direct", Tgt: "foreign", Shape: "initreboot", inDora: true},
+				v4op{Kind: "decline", C: c, Tr: "direct", Tgt: "mine"})
 		}
+	}
+	if k != 2 {
+		a = append(a, v4op{Kind: "request", C: k - 1, Tr: "direct", Tgt: "foreign", Shape: "initreboot", inDora: true})
 	}
 	a = append(a, v4op{Kind: "advance", Delta: "full"})
 	if k == 2 {
-		a = append(a, v4op{Kind: "advance", Delta: "half"}, v4op{Kind: "cleanup"})
+		a = append(a, v4op{Kind: "cleanup"})
 	}
 	return a
 }
@@ -1507,7 +1615,7 @@ func v4Alphabet(k int) []v4op {
 func TestPropV4Exhaustive(t *testing.T) {
 	if !vstat.Thorough() {
 		// quick tier: the same enumerator at depth 3 so that the code path stays exercised
-		runV4Exhaustive(t, 2, 3)
+		runV4Exhaustive(t, 2, vstat.Scale(3, 3))
 		return
 	}
 	runV4Exhaustive(t, 2, 6)
@@ -1523,8 +1631,13 @@ func runV4Exhaustive(t *testing.T, k, depth int) {
 	for i := 0; i < depth; i++ {
 		total *= n
 	}
+	pow := make([]int, depth+1) // pow[j] = n^j
+	pow[0] = 1
+	for j := 1; j <= depth; j++ {
+		pow[j] = pow[j-1] * n
+	}
 	idx := make([]int, depth)
-	done := 0
+	done, pruned := 0, 0
 	const batch = 2000
 	for start := shard * batch; start < total; start += shards * batch {
 		end := start + batch
@@ -1538,7 +1651,7 @@ func runV4Exhaustive(t *testing.T, k, depth int) {
 		var results []one
 		// one bubble per batch: virtual time simply keeps running across the servers of a batch
 		synctest.Test(t, func(t *testing.T) {
-			for s := start; s < end; s++ {
+			for s := start; s < end; {
 				v := s
 				for i := depth - 1; i >= 0; i-- {
 					idx[i] = v % n
@@ -1548,7 +1661,18 @@ func runV4Exhaustive(t *testing.T, k, depth int) {
 				for i, j := range idx {
 					ops[i] = alpha[j]
 				}
-				results = append(results, one{ops, execV4InBubble(cfg, ops, true)})
+				res := execV4InBubble(cfg, ops, true)
+				results = append(results, one{ops, res})
+				next := s + 1
+				if res.deadAt >= 0 && res.deadAt < depth-1 {
+					// a listed finding stopped the case at op deadAt: every sequence with the same prefix behaves identically
+					next = (s/pow[depth-1-res.deadAt] + 1) * pow[depth-1-res.deadAt]
+					if next > end {
+						next = end
+					}
+					pruned += next - s - 1
+				}
+				s = next
 			}
 		})
 		for _, r := range results {
@@ -1556,7 +1680,8 @@ func runV4Exhaustive(t *testing.T, k, depth int) {
 			done++
 		}
 	}
-	vstat.Note(fmt.Sprintf("v4-exhaustive-k%d-depth%d", k, depth), map[string]any{"alphabet": len(alpha), "sequences_total": total, "sequences_this_shard": done, "shards": shards})
+	vstat.Note(fmt.Sprintf("v4-exhaustive-k%d-depth%d", k, depth), map[string]any{"alphabet": len(alpha), "sequences_total": total, "executed_this_shard": done,
+		"pruned_this_shard_same_prefix_as_a_known_finding": pruned, "shards": shards})
 	vstat.Exhaustive(true)
 }
 
@@ -1605,6 +1730,11 @@ func v4Scenarios() []v4scenario {
 			// a different device on the old port is then offered and ACKed c0's address
 			{Kind: "dora", C: 0, Tr: "relay82"}, {Kind: "request", C: 0, Tr: "relay82other", Other: 2, Tgt: "mine", Shape: "renewing"},
 			{Kind: "dora", C: 0, Alt: true, Tr: "relay82"}}},
+		{"cpe-swap-after-expiry", sigV4Swap, v4relayed, []v4op{
+			// the swap happens when the old CPE's lease has just run out (no duplicate in the table at any time):
+			// the old MAC's DISCOVER / the cleanup tick then free the address under the new CPE
+			{Kind: "dora", C: 0, Tr: "own"}, {Kind: "advance", Delta: "full"}, {Kind: "request", C: 0, Alt: true, Tr: "own", Tgt: "mine", Shape: "selecting"},
+			{Kind: "discover", C: 0, Tr: "own"}}},
 		{"cpe-swap-consequence", sigV4TableDup + "same-circuit", v4relayed, []v4op{
 			// the old CPE's stale entry expires first: cleanup frees the address the new CPE still holds, and a fresh client is given it
 			{Kind: "dora", C: 0, Tr: "relay82"}, {Kind: "advance", Delta: "half"}, {Kind: "request", C: 0, Alt: true, Tr: "relay82", Tgt: "mine", Shape: "selecting"},
